@@ -85,6 +85,21 @@ func EvalExpr(info *types.Info, e ast.Expr) (Value, bool) {
 			}
 			return &Array{T: t, E: elems}, true
 		}
+	case *ast.CallExpr:
+		// type conversion of a constant aggregate: T(x)
+		if len(x.Args) == 1 {
+			if ftv, ok := info.Types[x.Fun]; ok && ftv.IsType() {
+				v, ok := EvalExpr(info, x.Args[0])
+				if !ok {
+					return nil, false
+				}
+				if a, isArr := v.(*Array); isArr {
+					return &Array{T: tv.Type, E: a.E}, true
+				}
+				return v, true
+			}
+		}
+		return nil, false
 	case *ast.Ident:
 		// reference to another package-level var is not followed here
 		return nil, false
